@@ -259,7 +259,7 @@ def gen_subline(rng):
             items.append({'id': 'CM', 'kind': 'cms', 'maint': 'M',
                           'sensors': [i['id'] for i in items if i['id'] in ('PS', 'OS')]})
         if rng.random() < 0.6:
-            items.append({'id': 'AS', 'kind': 'scheduler', 'timetable': [[rng.choice([1, 2, 0.5]), True],
+            items.append({'id': 'AS', 'kind': 'scheduler', 'timetable': [[rng.choice([1, 2, 0.5, 0, 0]), True],
                                                                        [rng.choice([0.5, 1]), False]],
                           'cyclical': rng.choice([True, False, None]), 'targets': [p]})
     script.sort(key=lambda e: e['t'])
